@@ -113,6 +113,17 @@ def run(an: Analysis, rep):
         rep.add("R14.3", "decoder::nested code constants -> CodeData.from_code", bool(good), loc(api.module, api.node),
                 f"{good} maps a CodeType constant to CodeData.from_code(constant)" if good else
                 "no function in the decode closure converts a nested CodeType constant with CodeData.from_code", config=vname(V))
+        # every place a constant can be stored (instruction operands AND the unreferenced-entry list) holds a *converted* value: an element of
+        # co_consts reaches Constant.constant only on the branch of the conversion on which it is known not to be a code object
+        for label, steps in (("instruction operands", [("a", "blocks"), ("e",), ("e",), ("a", "arg"), ("t", ("Constant",)), ("a", "constant")]),
+                             ("unreferenced table entries", [("a", "_additional_args"), ("e",), ("t", ("Constant",)), ("a", "constant")])):
+            cv = it3.navigate(ret3, steps)
+            raw = [a for a in cv if a[0] == "src" and a[1] == "code" and a[2][:1] == (("a", "co_consts"),)
+                   and not any(st[0] == "nt" and "CodeType" in st[1] for st in a[2])]
+            rep.add("R14.3", f"decoder::{label} hold converted constants", not raw, loc(api.module, api.node),
+                    f"a raw element of co_consts ({fmt_atom(raw[0])}) can be stored as the constant of {label} without passing the CodeType -> CodeData conversion: a nested "
+                    f"code object kept there is not a CodeData, so iteration skips it and everything below it" if raw
+                    else f"constants of {label} are CodeData.from_code(...) or values known not to be code objects", config=vname(V))
         # the constants handed to the instruction decoder come from co_consts element-wise
         v = it3.navigate(ret3, [("a", "blocks"), ("e",), ("e",), ("a", "arg"), ("t", ("Constant",)), ("a", "constant")])
         org = {a for a in it3.origins(v) if a[0] == "src"}
